@@ -191,6 +191,24 @@ macro_rules! kind_items {
             if n.is_root() != ls.inn.is_empty() || n.is_leaf() != ls.out.is_empty() || n.is_orphan() != (ls.inn.is_empty() && ls.out.is_empty()) {
                 return Err(format!("root/leaf/orphan of {} disagree with its lists", ls.key));
             }
+            // the rest of the Iterator surface of the edge iterators must agree with stepping through them
+            let tri = |e: Edge<usize, i64, u32>| (*e.1.key(), e.2);
+            if n.iter_out().count() != ls.out.len() || n.iter_in().count() != ls.inn.len() {
+                return Err(format!("count() of the edge iterators of {} disagrees with the lists", ls.key));
+            }
+            if n.iter_out().last().map(tri) != ls.out.last().cloned() || n.iter_out().nth(1).map(tri) != ls.out.get(1).cloned() || n.iter_out().skip(2).next().map(tri) != ls.out.get(2).cloned() {
+                return Err(format!("last()/nth()/skip() of iter_out of {} disagree with the list {:?}", ls.key, ls.out));
+            }
+            if n.iter_in().last().map(|e| (*e.0.key(), e.2)) != ls.inn.last().cloned() || n.iter_in().nth(1).map(|e| (*e.0.key(), e.2)) != ls.inn.get(1).cloned() {
+                return Err(format!("last()/nth() of iter_in of {} disagree with the list {:?}", ls.key, ls.inn));
+            }
+            let (lo, hi) = n.iter_out().size_hint();
+            if lo > ls.out.len() || hi.map_or(false, |h| h < ls.out.len()) {
+                return Err(format!("size_hint() of iter_out of {} is ({lo}, {:?}) but it yields {} edges", ls.key, hi, ls.out.len()));
+            }
+            if n.into_iter().map(tri).collect::<Vec<_>>() != ls.out {
+                return Err(format!("IntoIterator for &Node of {} disagrees with iter_out", ls.key));
+            }
             for o in all {
                 let c = n.is_connected(&o.key);
                 if c != ls.out.iter().any(|p| p.0 == o.key) {
@@ -224,6 +242,17 @@ macro_rules! kind_items {
             }
             if n.is_orphan() != ls.out.is_empty() {
                 return Err(format!("is_orphan of {} disagrees with its list", ls.key));
+            }
+            let tri = |e: Edge<usize, i64, u32>| (*e.1.key(), e.2);
+            if n.iter().count() != ls.out.len() || n.iter().last().map(tri) != ls.out.last().cloned() || n.iter().nth(1).map(tri) != ls.out.get(1).cloned() || n.iter().skip(2).next().map(tri) != ls.out.get(2).cloned() {
+                return Err(format!("count()/last()/nth()/skip() of iter() of {} disagree with the list {:?}", ls.key, ls.out));
+            }
+            let (lo, hi) = n.iter().size_hint();
+            if lo > ls.out.len() || hi.map_or(false, |h| h < ls.out.len()) {
+                return Err(format!("size_hint() of iter() of {} is ({lo}, {:?}) but it yields {} edges", ls.key, hi, ls.out.len()));
+            }
+            if n.into_iter().map(tri).collect::<Vec<_>>() != ls.out {
+                return Err(format!("IntoIterator for &Node of {} disagrees with iter()", ls.key));
             }
             for o in all {
                 let c = n.is_connected(&o.key);
